@@ -1442,7 +1442,9 @@ class Crystal(object):
         :return nnlist: list of nearest neighbor vectors
         """
         r2 = cutoff * cutoff
-        nmax = [int(np.round(np.sqrt(r2/self.metric[i, i]))) + 1
+        # a vector within the cutoff has |n_i + du_i| <= cutoff / (spacing of the lattice planes normal to b_i)
+        invmetric = np.linalg.inv(self.metric)
+        nmax = [int(np.floor(np.sqrt(r2*invmetric[i, i]))) + 1
                 for i in range(self.dim)]
         nranges = [range(-n, n+1) for n in nmax]
         supervect = [np.array(ntup) for ntup in itertools.product(*nranges)]
@@ -1477,7 +1479,9 @@ class Crystal(object):
             return any(tup == ij and self.__isclose__(dx, v) for translist in lis for ij, v in translist)
 
         r2 = cutoff * cutoff
-        nmax = [int(np.round(np.sqrt(r2/self.metric[i, i]))) + 1
+        # a vector within the cutoff has |n_i + du_i| <= cutoff / (spacing of the lattice planes normal to b_i)
+        invmetric = np.linalg.inv(self.metric)
+        nmax = [int(np.floor(np.sqrt(r2*invmetric[i, i]))) + 1
                 for i in range(self.dim)]
         nranges = [range(-n, n+1) for n in nmax]
         supervect = [np.array(ntup) for ntup in itertools.product(*nranges)]
